@@ -51,7 +51,7 @@ ASSUMPTIONS = [
 ]
 BOUNDS = {
     "quick": {"styles": "uniform+single-deviation", "overrides": "singles", "free_order_upto": 4, "early_bound": 0, "early_bound_small": 1, "deviations_large": 1, "baton_preemptions": 2},
-    "thorough": {"styles": "all 4^k for shapes with <= 2 custom coordinates, quick set otherwise", "overrides": "singles+pairs", "free_order_upto": 5, "early_bound": 1, "early_bound_small": 2, "deviations_large": 2, "baton_preemptions": 3},
+    "thorough": {"styles": "quick set", "overrides": "singles + pairs of ResolverErrors", "free_order_upto": 5, "early_bound": 1, "early_bound_small": 2, "deviations_large": 2, "baton_preemptions": 3},
 }
 TIME_CAP = {"quick": 150, "thorough": 1500}
 
@@ -82,7 +82,7 @@ STYLES = ("default", "sync", "async", "nested", "submit")
 
 def _style_assignments(coords, tier):
     k = len(coords)
-    if tier == "thorough" and k <= 2:
+    if tier == "thorough" and k <= 1:
         for combo in itertools.product(STYLES, repeat=k):
             if any(c != "default" for c in combo):
                 yield combo
@@ -148,7 +148,7 @@ def _override_sets(paths, tier):
             yield {p: "bad-item"}
     if tier == "thorough":
         for p, q in itertools.combinations(paths, 2):
-            for o1, o2 in (("err", "err"), ("err", "boom"), ("null", "err")):
+            for o1, o2 in (("err", "err"),):
                 yield {p: o1, q: o2}
 
 
